@@ -1,6 +1,6 @@
 #!/bin/bash
 # try_patch.sh <patch-file> <PROP...> : apply a patch to /repo, run the given checks, always restore /repo
-P=$1; shift
+P=$(readlink -f "$1"); shift
 cd /repo || exit 2
 if ! git apply --check "$P" 2>/dev/null; then echo "PATCH DOES NOT APPLY: $P"; exit 2; fi
 git apply "$P"
